@@ -646,7 +646,9 @@ class HttpParser(abc.ABC, Generic[_MsgT]):
         # encoding
         enc = headers.get(hdrs.CONTENT_ENCODING, "")
         if enc.isascii() and enc.lower() in {"gzip", "deflate", "br", "zstd"}:
-            encoding = enc
+            # Content-coding names are case-insensitive:
+            # https://www.rfc-editor.org/rfc/rfc9110#section-8.4.1
+            encoding = enc.lower()
 
         # chunking
         te = headers.get(hdrs.TRANSFER_ENCODING)
